@@ -10,7 +10,8 @@
 From Coq Require Import List Arith Bool.
 From PV Require Import Model.Pool Proofs.PoolProofs Model.PoolLaunch Proofs.PoolLaunchProofs
   Model.GrpcJsonStart Proofs.GrpcJsonStartProofs Model.GrpcWarmUp Proofs.GrpcWarmUpProofs
-  Model.EncAggrRun Proofs.EncAggrRunProofs Model.PlugFactory Proofs.PlugFactoryProofs.
+  Model.EncAggrRun Proofs.EncAggrRunProofs Model.PlugFactory Proofs.PlugFactoryProofs
+  Model.ScanDecode Proofs.ScanDecodeProofs.
 Import ListNotations.
 
 (* the correspondence run and the theorems are about the same variant of the code *)
@@ -580,3 +581,36 @@ Example C05_example_plugin_factory :
      [GvPool 0 (PvPre (pf_pre_outcome (factory_call tree_cvprog 2 false None [VImpl false; VErr (Some 3)]))); GvEngRecv 0] = Some g /\
      eng g = Some er /\ er_res er = RFail CGunFactory).
 Proof. repeat split. eexists. eexists. split; [vm_compute; reflexivity|repeat split]. Qed.
+
+(* ---- the ammo provider as a component: a decode provider on the scan decoder (Model/ScanDecode.v) ---- *)
+
+(* For every input (any chunks, clean end or scanner error): the provider stops after at most one Decode call per chunk
+   plus one, returns an error exactly when something is wrong with the input (a chunk that does not decode, a scanner
+   error), and has handed out exactly the ammo before the first broken chunk -- it runs out of ammo when the file does. *)
+Theorem C05_scan_provider_terminates_and_reports : forall l e fuel d,
+  length l < fuel ->
+  dp_run fuel sd_fixed l e d = (if sd_spec_fails l e then PFail else PNil, d + sd_spec_delivered l).
+Proof. exact dp_run_fixed_spec. Qed.
+Print Assumptions C05_scan_provider_terminates_and_reports.
+
+Theorem C05_scan_provider_terminates : forall l e, fst (dp_run (S (length l)) sd_fixed l e 0) <> POutOfFuel.
+Proof. exact dp_run_fixed_terminates. Qed.
+Print Assumptions C05_scan_provider_terminates.
+
+(* the tree before fix 1f55920 (a clean end of the scanner gave a nil error): on EVERY healthy input the provider never
+   stops -- whatever the fuel, it is used up handing out blank ammo *)
+Theorem C05_scan_provider_orig_never_ends_refuted : forall l fuel d,
+  existsb ck_bad l = false -> fst (dp_run fuel sd_orig l false d) = POutOfFuel.
+Proof. exact dp_run_orig_healthy_file_never_ends. Qed.
+Print Assumptions C05_scan_provider_orig_never_ends_refuted.
+
+Theorem C05_scan_model_is_current_tree : sd_current = sd_fixed.
+Proof. reflexivity. Qed.
+Print Assumptions C05_scan_model_is_current_tree.
+
+Example C05_example_scan_provider :
+  dp_run 10 sd_fixed (fst (sd_file 2 1 SpNone)) false 0 = (PNil, 3) /\
+  dp_run 10 sd_fixed (fst (sd_file 2 1 SpBad)) false 0 = (PFail, 2) /\
+  dp_run 10 sd_fixed (fst (sd_file 2 1 SpScan)) true 0 = (PFail, 2) /\
+  dp_run 10 sd_orig (fst (sd_file 2 1 SpNone)) false 0 = (POutOfFuel, 10).
+Proof. repeat split. Qed.
